@@ -27,7 +27,7 @@ def hostile(tier, seed):
         s["hostile"] = True
         s["c12_class"] = "hostile|api"
         s["must_reject"] = must_reject
-        s["timeout"] = 600
+        s["timeout"] = 1500
         out.append(s)
 
     def cli(tag, must_reject=False, kind="cli_geqdsk", **kw):
@@ -37,7 +37,7 @@ def hostile(tier, seed):
         s["hostile"] = True
         s["c12_class"] = "hostile|" + kind
         s["must_reject"] = must_reject
-        s["timeout"] = 600
+        s["timeout"] = 1500
         out.append(s)
 
     # wrong types / out of range / invalid -> must be rejected
@@ -58,6 +58,13 @@ def hostile(tier, seed):
     nx = cases.tok("cdn", s=1, fs=1, orth=False, wall="slant", guards=0, tag="hostile-nonorth-xyderiv", curvature_type="curl(b/B) with x-y derivatives")
     nx.update(hostile=True, c12_class="hostile|api", must_reject=True, timeout=900)
     out.append(nx)
+    # a slightly disconnected double null gridded as connected (nx_inter_sep = 0): the second X-point at
+    # psi_N = 1.016 lies between the centre (1.011) and the outer face (1.022) of the first SOL cell, where
+    # the documented refusal applies; with the second X-point much nearer either outcome is allowed (a written file must be valid)
+    for k, (eps_, rej) in enumerate([(0.002, True), (0.0004, False)]):
+        dn = cases.tok("ldn", s=1, fs=1, tag="hostile-connected-dn-%d" % k, eq_extra={"eps": eps_}, nx_inter_sep=0)
+        dn.update(hostile=True, c12_class="hostile|api", must_reject=rej, timeout=900)
+        out.append(dn)
     if tier == "thorough":
         api("mesh-differs-guards", must_reject=True, mesh_opts_override={"y_boundary_guards": 2})
         api("mesh-differs-interp", must_reject=True, mesh_opts_override={"psi_interpolation_method": "dct"})
